@@ -305,9 +305,21 @@ ROUND7 = {
     "C19": " Round-7 clause: AffineTransform.compose builds (self.A @ other.A, self.A @ other.b + self.b); a shortcut returning one operand unchanged reads the matrix AND the translation of the operand it drops.",
     "C20": " Round-7 clause: valid_mapping pairs operands by position (strict zip) and rejects a position whenever its source differs from the followed abstract operand (no per-position membership test).",
 }
+# clauses added in round 8 (DESIGN.md section 10.16)
+ROUND8 = {
+    "C03": " Round-8 clause: from_affine_map refuses every map with a floordiv / ceildiv / mod anywhere in a result (the rule of C19, shared).",
+    "C04": " Round-8 clauses: an operand that cannot be traced is refused, never defaulted; max(x // k, c) in a register map is evaluated exactly over the enumerated configurations, and a segment pair that is neither proved disjoint nor could be tried is an analysis error.",
+    "C08": " Round-8 clause: gemmx M counts the output pattern's bounds with a non-zero temporal stride in that same pattern (not streamer flags).",
+    "C10": " Round-8 clause: get_affine_map takes its constant term from self.data.offset only where it is known (no default for a dynamic offset).",
+    "C11": " Round-8 clause: every use of a buffer is recorded, whatever the kind of the using op (terminators included).",
+    "C12": " Round-8 clause: users that are no kernels count as readers / writers (func.return excepted for writing).",
+    "C13": " Round-8 clause: the view closure descends transitively (views of views).",
+    "C14": " Round-8 clause: both dispatch rules ask the extensions about the same kernel op of a region.",
+    "C16": " Round-8 clauses: a loop is parallel iff some entry of its output column is non-zero (no column sums); a row slice of the template matrix starts at a count known to be non-negative on every path class.",
+}
 for _pid in list(CLAIMED):
     _t, _n, _tech, _ref = CLAIMED[_pid]
-    CLAIMED[_pid] = (_t + ROUND7.get(_pid, "") + ROUND7_ALL, _n, _tech, _ref)
+    CLAIMED[_pid] = (_t + ROUND7.get(_pid, "") + ROUND8.get(_pid, "") + ROUND7_ALL, _n, _tech, _ref)
 
 NOT_APPLICABLE = {
 }
